@@ -286,6 +286,19 @@ where
     let guard_sz = 0;
     let size = guard_sz + stack_sz;
 
+    // Map the stack first, if that fails nothing else has been allocated yet
+    let map_ptr = unsafe {
+        mmap(
+            None,
+            NonZeroUsize::new_unchecked(size),
+            MemoryProtection::PROT_READ | MemoryProtection::PROT_WRITE,
+            MapRequiredFlag::MapPrivate,
+            MapAdditionalFlags::MAP_ANONYMOUS,
+            None,
+            0,
+        )?
+    };
+
     let tsm = unsafe { Tsm::init::<T>() };
     let df = move || {
         unsafe {
@@ -318,17 +331,6 @@ where
     // 2. We can't refer to the box we create by address on the stack, because we will risk accessing
     // it after this part of the stack is destroyed/overwritten/whatever.
 
-    let map_ptr = unsafe {
-        mmap(
-            None,
-            NonZeroUsize::new_unchecked(size),
-            MemoryProtection::PROT_READ | MemoryProtection::PROT_WRITE,
-            MapRequiredFlag::MapPrivate,
-            MapAdditionalFlags::MAP_ANONYMOUS,
-            None,
-            0,
-        )?
-    };
     // Stack grows downward
     let mut stack = map_ptr + size;
     // shift down a bit, unsure exactly why, doesn't really matter if we do or don't actually
